@@ -39,6 +39,7 @@ type Profile struct {
 	PlainNames bool // always the plain collection names (engines that address "a","b" literally)
 	Framed int // percentage of cases whose value callbacks frame every value with a 4-byte trailer
 	Bulk int // per mille of the cases that start with a bulk load of 1300-4000 items (then few ops, comparison at the end)
+	BlockMutations bool // visitors of block/random visits may also mutate (then only termination and later contents are judged)
 	NoGiant bool // never draw values above 64 KiB (fault enumerations re-open thousands of times per history)
 	HugeNames bool // rarely: a 70 000-byte collection name (root records beyond 64 KiB)
 	NestedKinds []string // ops a visitor callback may run (default nestedKinds)
@@ -119,7 +120,8 @@ var giantDrawn bool
 
 func genVal(t *rapid.T, p *Profile) []byte {
 	r := uni(t, 100, "valclass")
-	if p.BigVals && !p.NoGiant && r == 99 && uni(t, 12, "giant") == 0 {
+	if p.BigVals && !p.NoGiant && ((r == 99 && uni(t, 12, "giant") == 0) || (giantDrawn && r >= 80)) {
+		// (once a case has one such value, a fifth of its later values are large too)
 		giantDrawn = true
 		// rarely: a value just above 1 MiB (or 64 KiB) - sizes at which an
 		// implementation might start to split or cap reads and writes
@@ -358,7 +360,11 @@ func (p *Profile) genBlockSubs(t *rapid.T, o *Op, gs *genState, depth int) {
 	o.At = rapid.IntRange(0, 4).Draw(t, "at")
 	n := rapid.IntRange(1, 2).Draw(t, "nsub")
 	for i := 0; i < n; i++ {
-		k := blockNestedKinds[uni(t, len(blockNestedKinds), "subkind")]
+		kinds := blockNestedKinds
+		if p.BlockMutations {
+			kinds = blockNestedMutKinds
+		}
+		k := kinds[uni(t, len(kinds), "subkind")]
 		sub := p.genOpKind(t, k, gs, depth+1)
 		sub.C, sub.S = o.C, o.S // the same collection through the same handle
 		o.Sub = append(o.Sub, sub)
@@ -366,6 +372,9 @@ func (p *Profile) genBlockSubs(t *rapid.T, o *Op, gs *genState, depth int) {
 }
 
 var blockNestedKinds = []string{OpRandom, OpBlock, OpLen, OpGetItem, OpVisit, OpRandom}
+
+// with mutations by the (single) mutating goroutine from inside the visitor (C10, C18)
+var blockNestedMutKinds = []string{OpRandom, OpBlock, OpLen, OpGetItem, OpVisit, OpSet, OpSet, OpDel, OpEvict}
 
 var nestedKinds = []string{OpGet, OpGetItem, OpMin, OpTotals, OpVisit, OpSet, OpDel, OpEvict, OpSnap, OpSnapClose, OpFlush, OpSetColl, OpRmColl, OpChurn}
 
